@@ -186,9 +186,10 @@ static int trace_main(const char *out, unsigned seed, long nrandom, int maxsize)
         }
     }
     /* drop everything */
-    for (int round = 0; round < 64; round++) {
+    for (int any = 1; any; ) {            /* (a block may have gathered any number of references during the random phase) */
+        any = 0;
         g_sync();
-        for (int b = 1; b <= NB; b++) if (B[b].live && g_held[b] > 0) { tr_do("Unref", b, 0, 0, 0, NULL); g_unref(b); g_sync(); }
+        for (int b = 1; b <= NB; b++) if (B[b].live && g_held[b] > 0) { tr_do("Unref", b, 0, 0, 0, NULL); g_unref(b); g_sync(); any = 1; }
     }
     fclose(TF);
     printf("TRACE {\"events\": %ld, \"outstanding\": %ld}\n", tr_events, vp_outstanding);
